@@ -78,7 +78,7 @@ class ChannelEngine(Engine):
                        'loss_natoms', 'loss_bounds', 'loss_atoms_section', 'loss_atoms_section_velocities_kept', 'stream_source', 'short_read_source', 'path_source',
                        'imageflags_written', 'tilted_cell', 'nonperiodic_dims', 'gapped_types', 'random_epoch',
                        'compared_cells_above_resolution', 'chained_transfer', 'poscar_cartesian', 'poscar_box_scale',
-                       'dump_scaled_columns', 'writer_prop_info_used', 'dest_path', 'dest_stream', 'table_with_id', 'io_error_load_raised', 'dump_two_position_forms', 'integer_typed_float_property', 'same_path_rewritten', 'system_with_own_atom_ids', 'poscar_rotated_cell', 'stream_positioned_past_an_earlier_frame', 'dump_explicit_no_conversion_for_a_standard_property', 'integer_beyond_2_53_carried']
+                       'dump_scaled_columns', 'writer_prop_info_used', 'dest_path', 'dest_stream', 'table_with_id', 'io_error_load_raised', 'dump_two_position_forms', 'integer_typed_float_property', 'same_path_rewritten', 'system_with_own_atom_ids', 'poscar_rotated_cell', 'stream_positioned_past_an_earlier_frame', 'dump_explicit_no_conversion_for_a_standard_property', 'integer_beyond_2_53_carried', 'refused_dump_raised', 'refused_load_before_the_next']
     rule = ('Each run draws a working-unit epoch (atomman default or seeded random, so that unit-column mix-ups cannot hide behind '
             'factors of one) and performs up to 8 transfers. A transfer builds a system (or reuses the system loaded by the previous '
             'transfer): LAMMPS-compatible cell, orthogonal or tilted, any origin, 1-40 atoms inside / outside / on faces, 1-4 types '
@@ -212,6 +212,9 @@ class ChannelEngine(Engine):
         op = {'op': 'transfer', 'style': style, 'fmt': r.choice(FORMATS), 'dest': r.choice(['return', 'return', 'path', 'stream']),
               'src': r.choice(streams.SOURCE_KINDS), 'chunks': [r.choice([1, 2, 5, 17, 64, 4096]) for _ in range(4)],
               'bufsize': r.choice([1, 16, 512, 8192]), 'chain': r.random() < 0.6, 'same_path': r.random() < 0.5}
+        if not cfg['fault_free']:
+            op['refused_dump'] = r.random() < 0.25
+            op['refused_load'] = r.choice([None, None, None, None, 'cut4', 'cut2', 'badnum'])
         if cfg['fault_free'] and op['src'] in ('chunked', 'buffered'):
             op['src'] = 'bytesio'
         if op['src'] in ('chunked', 'buffered') and r.random() < 0.2:
@@ -329,6 +332,23 @@ class ChannelEngine(Engine):
         if style == 'poscar' and float(np.abs(cur['origin']).max()) != 0.0:
             ctx.ev('skip', 'transfer')
             return
+        if op.get('refused_load') and style != 'table':
+            # somebody else's broken file is tried first (cut inside its header, or with a malformed number): whatever that
+            # call does, it must not change what the next load of a good file returns
+            stub = {'poscar': 'broken cell\n1.0\n4.05 0.0 0.0\n0.0 4.05 0.0\n0.0 0.0 4.05\nAl\n4\nDirect\n',
+                    'atom_data': 'broken data file\n\n4 atoms\n1 atom types\n0.0 4.05 xlo xhi\n0.0 4.05 ylo yhi\n0.0 4.05 zlo zhi\n\nAtoms\n\n',
+                    'atom_dump': 'ITEM: TIMESTEP\n0\nITEM: NUMBER OF ATOMS\n4\nITEM: BOX BOUNDS pp pp pp\n0.0 4.05\n0.0 4.05\n0.0 4.05\n'}[style]
+            how = op['refused_load']
+            lines = stub.split('\n')
+            if how == 'cut4':
+                stub = '\n'.join(lines[:4]) + '\n'
+            elif how == 'cut2':
+                stub = '\n'.join(lines[:2]) + '\n'
+            else:
+                stub = stub.replace('4.05', '4.o5', 1)
+            ctx.sut(am.load, style, stub)
+            ctx.fault('refused_load')
+            ctx.probe('refused_load_before_the_next')
         fn = getattr(self, '_t_' + style)
         out = fn(ctx, st, cur, op)
         if out is not None and op['chain']:
@@ -347,18 +367,43 @@ class ChannelEngine(Engine):
             st['nfile'] += 1
             p = os.path.join(st['scratch'], 'w%d.txt' % st['nfile'])
             res = ctx.must(clause, system.dump, style, f=p, klass=klass, **kw)
+            if op.get('refused_dump'):
+                # a second, ill-formed request for the same file is refused: the file must still hold the first dump
+                self._refused_dump(ctx, system, style, p, kw)
             with open(p, encoding='UTF-8') as f:
                 text = f.read()
             ctx.probe('dest_path')
             return text, res
         else:
             buf = io.StringIO()
+            if op.get('refused_dump'):
+                # the refused request comes first, the corrected one goes into the same open stream
+                self._refused_dump(ctx, system, style, buf, kw)
             res = ctx.must(clause, system.dump, style, f=buf, klass=klass, **kw)
             ctx.probe('dest_stream')
             return buf.getvalue(), res
         if isinstance(res, tuple):
             return res[0], res[1:] if len(res) > 2 else res[1]
         return res, None
+
+    def _refused_dump(self, ctx, system, style, f, kw):
+        bad = dict(kw)
+        bad.pop('return_prop_info', None)
+        if style == 'poscar':
+            bad['symbols'] = ['Al'] * (system.natypes + 2)              # as many symbols as types are needed
+        elif style == 'atom_data':
+            bad['units'] = 'no_such_units'
+        elif style == 'atom_dump':
+            bad['lammps_units'] = 'no_such_units'
+        else:
+            bad.pop('prop_info', None)
+            bad['prop_name'] = ['atype', 'pos']
+            bad['unit'] = [None]                                        # one unit for two properties
+        # (a copy of the system: writers called with safecopy=False may wrap the system they are given, refused or not)
+        ok, res = ctx.sut(copy.deepcopy(system).dump, style, f=f, **bad)
+        ctx.fault('refused_dump')
+        if not ok:
+            ctx.probe('refused_dump_raised')
 
     def _source(self, ctx, st, text, op, prefix=None):
         st['nfile'] += 1
